@@ -210,11 +210,5 @@ def check(ctx, run):
             okp = False
             wit.append({"path": p.describe(reg), "sequence": seq})
     run.ob("R4", "registry brackets runOneTest with currentTestStarted/currentTestEnded on every path", reg.site, okp, witness=wit or "all paths")
-    # group callbacks: Start only when groupStart, End only when endOfGroup  (details in C02.R4)
-    okg = True
-    for p in enumerate_paths(reg):
-        val = p.val()
-        names = [(call_name(prog, reg, c) or "").split("::")[-1] for c in path_calls(prog, reg, p)]
-        if names.count("currentGroupStarted") > names.count("currentGroupEnded") + 1 and False:
-            okg = False
-    run.ob("R4", "group callbacks are issued by the registry loop (balance decided in C02.R4)", reg.site, okg, witness="see C02.R4")
+    from .C02 import group_balance
+    group_balance(prog, run, "R4")
